@@ -9,6 +9,7 @@ from ..explore import Stats, bfs_histories, digest
 from ..libconv import from_lib
 from ..models import responder_model as rm
 from ..models.cache_model import ident
+from ..introspect import generic_canon, guarded
 from ..world import World
 
 ID = "C03"
@@ -150,15 +151,20 @@ class Replay:
 
     def canon(self) -> Any:
         reg = self.zc.registry
-        infos = []
-        for key, i in sorted(reg._services.items()):
-            infos.append((key, i.type, i.name, i.server, i.port, i.text, tuple(i.addresses_by_version(_ALL())),
-                          i.host_ttl, i.other_ttl,
-                          tuple(getattr(i, a) is not None for a in ("_dns_address_cache", "_dns_pointer_cache",
-                                                                      "_dns_service_cache", "_dns_text_cache",
-                                                                      "_get_address_and_nsec_records_cache"))))
-        return (infos, sorted((k, tuple(v)) for k, v in reg.types.items()),
-                sorted((k, tuple(v)) for k, v in reg.servers.items()), reg.has_entries)
+
+        def precise() -> Any:
+            infos = []
+            for key, i in sorted(reg._services.items()):
+                infos.append((key, i.type, i.name, i.server, i.port, i.text, tuple(i.addresses_by_version(_ALL())),
+                              i.host_ttl, i.other_ttl,
+                              tuple(getattr(i, a) is not None for a in ("_dns_address_cache", "_dns_pointer_cache",
+                                                                          "_dns_service_cache", "_dns_text_cache",
+                                                                          "_get_address_and_nsec_records_cache"))))
+            return (infos, sorted((k, tuple(v)) for k, v in reg.types.items()),
+                    sorted((k, tuple(v)) for k, v in reg.servers.items()), reg.has_entries)
+
+        # the registry holds no instants, so a structural walk is a sound (finer) stand-in when its layout is unknown
+        return guarded(precise, lambda: generic_canon(reg, 0.0, depth=6))
 
 
 def _ALL() -> Any:
